@@ -327,6 +327,20 @@ func registerHooks(p *Program) {
 		}
 		return call(fr.i, fr, token.NoPos, newFn, nil)
 	}
+	// context.WithValue checks key comparability through reflectlite (not
+	// interpreted); the valueCtx itself and every Value lookup are interpreted
+	h["context.WithValue"] = func(fr *frame, args []value) value {
+		cp := fr.i.prog.ImportedPackage("context")
+		if cp == nil || cp.Type("valueCtx") == nil {
+			panic(abort{AbortUnsupported, "context.valueCtx not loaded"})
+		}
+		if p, ok := args[0].(iface); ok && p.t == nil {
+			panic(targetPanic{v: "cannot create context from nil parent"})
+		}
+		t := cp.Type("valueCtx").Object().Type()
+		var cell value = structure{args[0], args[1], args[2]}
+		return iface{t: types.NewPointer(t), v: &cell}
+	}
 	h["runtime.Caller"] = func(fr *frame, args []value) value {
 		return tuple{uintptr(0), "verif", 0, false}
 	}
